@@ -88,8 +88,11 @@ pub fn render_doc(d: &Doc) -> (String, BTreeMap<String, usize>) {
     match d.format {
         Format::Md => {
             let dflt = cfg_flow(&d.defaults);
-            if d.total_timeout_ns.is_some() || !dflt.is_empty() || !d.prepend.is_empty() || !d.append.is_empty() {
+            if d.total_timeout_ns.is_some() || !dflt.is_empty() || !d.prepend.is_empty() || !d.append.is_empty() || d.shell.is_some() {
                 lines.push("---".into());
+                if let Some(sh) = &d.shell {
+                    lines.push(format!("shell: {}", yq(sh)));
+                }
                 if let Some(t) = d.total_timeout_ns {
                     lines.push(format!("total_timeout: {}", dur(t)));
                 }
